@@ -168,6 +168,17 @@ pub fn gen(prop: &str, tier: &str, seed: u64) -> Out {
                 o.stat("fault:random-bytes");
             }
         }
+        "C17" => {
+            for _ in 0..scale(tier, 1200, 40000) {
+                let v = gen_value(&mut r, &c, 0);
+                o.doc_stats(&v);
+                let t = show_value(&v);
+                let n = r.below(12) as usize;
+                let pre: Vec<u8> = if r.chance(1, 3) { gen_value(&mut r, &c, 1).to_vec() } else { (0..n).map(|_| r.next() as u8).collect() };
+                o.push(format!("encinto {} {}", hex(&pre), t));
+                o.push(format!("spec:encinto {} {}", hex(&pre), t));
+            }
+        }
         _ => {}
     }
     o
